@@ -1,5 +1,595 @@
-(** C13 — lemmas and invariants. *)
+(** C13 — lemmas and invariants: the code's bookkeeping (epoch number - skipped epochs - EPP*period)
+    refines the closed-form schedule. *)
 From Coq Require Import ZArith List Bool Lia.
 Import ListNotations.
-Require Import Nib.Lib.Dec Nib.C13.Model Nib.C13.Spec Nib.C13.Check.
+Require Import Nib.Lib.Dec Nib.C13.Model Nib.C13.Spec Nib.C13.Check Nib.C13.Arith.
 Local Open Scope Z_scope.
+
+(* ---------------------------------------------------------------- the coupling relation *)
+
+(** [R E M s e c]: state [s], with [e] the number of the next day epoch to end, stands at position [c] of the
+    schedule (c enabled day epochs so far) *)
+Definition R (E M : Z) (s : st) (e c : Z) : Prop :=
+  let p := s_params s in
+  p_epp p = E /\ p_max p = M /\ s_module s = 0 /\
+  (p_enabled p = true -> p_started p = true) /\
+  0 <= peek (s_skipped s) /\ c = e - peek (s_skipped s) - 1 /\ 0 <= c /\
+  peek (s_period s) = Z.min (c / E) M /\
+  (p_started p = false -> c = 0).
+
+Lemma Consistent_R s e :
+  Consistent s e -> s_module s = 0 -> 0 <= peek (s_skipped s) ->
+  R (p_epp (s_params s)) (p_max (s_params s)) s e (n_of s e - 1).
+Proof.
+  intros [C1 [C2 [C3 C4]]] Hm Hk. unfold R, n_of in *. repeat split; auto; try lia.
+  intro X. specialize (C4 X). lia.
+Qed.
+
+Lemma R_Consistent E M s e c : R E M s e c -> Consistent s e /\ c = n_of s e - 1.
+Proof.
+  intros [R1 [R2 [R3 [R4 [R5 [R6 [R7 [R8 R9]]]]]]]]. unfold Consistent, n_of. subst E M.
+  replace (e - peek (s_skipped s) - 1) with c by lia.
+  repeat split; auto; try lia. intro X. specialize (R9 X). lia.
+Qed.
+
+Lemma view_quiet ok s c :
+  s_module s = 0 -> peek (s_period s) = sched_period (s_params s) c ->
+  view_of (quiet ok s) = quiet_view {| q_params := s_params s; q_c := c |}.
+Proof. intros Hm Hp. unfold view_of, quiet, quiet_view. simpl. rewrite Hm, Hp. reflexivity. Qed.
+
+(* ---------------------------------------------------------------- a day epoch ends while inflation is enabled *)
+
+Lemma provision_below p per :
+  p_enabled p = true -> 0 < p_epp p -> per < p_max p -> provision p per = poly_provision p per.
+Proof.
+  intros He HE Hp. unfold provision. rewrite He.
+  assert (p_epp p =? 0 = false) as -> by (apply Z.eqb_neq; lia).
+  assert (p_max p <=? per = false) as -> by (apply Z.leb_gt; lia). reflexivity.
+Qed.
+
+Lemma provision_past_end p per : p_max p <= per -> provision p per = 0.
+Proof.
+  intro H. unfold provision. assert (p_max p <=? per = true) as -> by (apply Z.leb_le; lia).
+  rewrite !orb_true_r. reflexivity.
+Qed.
+
+Lemma enabled_day zp E M s e c :
+  small E M -> R E M s e c -> 0 <= e < two62 ->
+  p_enabled (s_params s) = true -> prov_ok zp (s_params s) c -> dist_ok (s_params s) ->
+  view_of (snd (after_epoch_end zp s true e)) = snd (spec_step {| q_params := s_params s; q_c := c |} (EpochEnd true e)) /\
+  R E M (fst (after_epoch_end zp s true e)) (e + 1) (c + 1) /\
+  s_params (fst (after_epoch_end zp s true e)) = s_params s.
+Proof.
+  intros [HE [HM HEM]] [R1 [R2 [R3 [R4 [R5 [R6 [R7 [R8 R9]]]]]]]] He Hen Hpo Hd.
+  destruct two62_lt as [T1 [T2 T3]].
+  set (p := s_params s) in *. set (k := peek (s_skipped s)) in *.
+  assert (Hst : p_started p = true) by auto.
+  unfold after_epoch_end, spec_step. cbn [negb q_params q_c]. fold p. rewrite Hen. cbn [negb].
+  rewrite R8. unfold prov_ok in Hpo. rewrite R1, R2 in Hpo.
+  pose proof (Z.div_pos c E R7 HE) as Hdiv.
+  assert (HcE : c / E * E <= c) by (rewrite Z.mul_comm; apply Z.mul_div_le; lia).
+  destruct (Z_lt_le_dec (c / E) M) as [Lt|Ge].
+  - (* the schedule has not ended: period = c / E *)
+    rewrite Z.min_l by lia. specialize (Hpo Lt).
+    rewrite provision_below by (try rewrite R1; try rewrite R2; auto; lia).
+    set (prov := poly_provision p (c / E)) in *.
+    assert (Hprov : 0 < prov) by (destruct zp; pose proof PREC_pos; lia).
+    assert (0 <? prov = true) as -> by (apply Z.ltb_lt; exact Hprov). cbn [negb].
+    assert (Hamt : 0 <= truncate_int prov) by (apply truncate_nonneg; lia).
+    (* the roll-over test *)
+    assert (Hroll : rollover e (p_epp p) (c / E) k = (E <=? (c + 1) - E * (c / E))).
+    { rewrite R1.
+      assert (B1 : 0 <= k < two62) by lia.
+      assert (B2 : 0 < E < two62) by nia.
+      assert (B3 : 0 <= E * (c / E) < two62) by nia.
+      rewrite (rollover_small e E (c / E) k He B1 B2 B3). f_equal. lia. }
+    assert (Hsm : sched_mint p c = truncate_int prov).
+    { unfold sched_mint. rewrite R1, R2. assert (c / E <? M = true) as -> by (apply Z.ltb_lt; lia). reflexivity. }
+    assert (Hnext : peek (if E <=? (c + 1) - E * (c / E) then Some (wrap_u64 (c / E + 1)) else s_period s)
+                    = Z.min ((c + 1) / E) M).
+    { destruct (next_period E c HE R7) as [[A B]|[A B]]; rewrite A, B.
+      - cbn [peek]. rewrite wrap_small by (rewrite <- T2, <- T1; nia). rewrite Z.min_l by lia. reflexivity.
+      - rewrite R8. rewrite !Z.min_l by lia. reflexivity. }
+    destruct (0 <? truncate_int prov) eqn:Pos; cbn [negb].
+    + (* something is minted *)
+      apply Z.ltb_lt in Pos.
+      rewrite R3, (allocate_ok p 0 (truncate_int prov) Hd ltac:(lia) ltac:(lia)). cbn [andb].
+      fold k. rewrite Hroll. cbn [fst snd]. split; [|split; [|reflexivity]].
+      * unfold view_of. cbn. rewrite Hsm, Hnext. unfold sched_period. rewrite R1, R2.
+        reflexivity.
+      * unfold R. cbn [s_params s_module s_period s_skipped]. fold p. fold k.
+        repeat split; auto; try lia. intro X. congruence.
+    + (* positive provision below one unibi: nothing minted, the roll-over test still runs (and the pinned tree panics) *)
+      apply Z.ltb_ge in Pos. assert (Z0 : truncate_int prov = 0) by lia.
+      assert (zp = false) as ->.
+      { destruct zp; [|reflexivity]. pose proof (truncate_ge1 prov Hpo). lia. }
+      fold k. rewrite Hroll. cbn [fst snd]. split; [|split; [|reflexivity]].
+      * unfold view_of, with_panic, quiet. cbn. rewrite Hsm, Z0, !share_zero, R3, Hnext.
+        unfold sched_period. rewrite R1, R2. reflexivity.
+      * unfold R. cbn [s_params s_module s_period s_skipped]. fold p. fold k.
+        repeat split; auto; try lia. intro X. congruence.
+  - (* past the end of the schedule: period = MaxPeriod, nothing is minted any more *)
+    rewrite Z.min_r by lia. rewrite provision_past_end by (rewrite R2; lia).
+    cbn [Z.ltb Z.compare negb fst snd]. split; [|split; [|reflexivity]].
+    + assert (Hsm : sched_mint p c = 0).
+      { unfold sched_mint. rewrite R1, R2. assert (c / E <? M = false) as -> by (apply Z.ltb_ge; lia). reflexivity. }
+      unfold view_of, quiet. cbn. rewrite Hsm, !share_zero, R3, R8. unfold sched_period. rewrite R1, R2.
+      assert ((c + 1) / E >= M).
+      { pose proof (Z.div_le_mono c (c + 1) E HE ltac:(lia)). lia. }
+      rewrite !Z.min_r by lia. reflexivity.
+    + unfold R. fold p. fold k. repeat split; auto; try lia.
+      * pose proof (Z.div_le_mono c (c + 1) E HE ltac:(lia)). rewrite R8. rewrite !Z.min_r by lia. reflexivity.
+      * intro X. congruence.
+Qed.
+
+(* ---------------------------------------------------------------- a day epoch ends while inflation is disabled *)
+
+Lemma disabled_day zp E M s e c :
+  small E M -> R E M s e c -> 0 <= e < two62 -> p_enabled (s_params s) = false ->
+  view_of (snd (after_epoch_end zp s true e)) = snd (spec_step {| q_params := s_params s; q_c := c |} (EpochEnd true e)) /\
+  R E M (fst (after_epoch_end zp s true e)) (e + 1) c /\
+  s_params (fst (after_epoch_end zp s true e)) = s_params s.
+Proof.
+  intros [HE [HM HEM]] [R1 [R2 [R3 [R4 [R5 [R6 [R7 [R8 R9]]]]]]]] He Hen.
+  destruct two62_lt as [T1 [T2 T3]].
+  unfold after_epoch_end, spec_step. cbn [negb q_params q_c]. rewrite Hen. cbn [negb fst snd].
+  destruct (p_started (s_params s)) eqn:Hst; cbn [negb].
+  - (* started before: one more skipped epoch, the position does not move *)
+    rewrite wrap_small by (rewrite <- T2, <- T1; lia).
+    split; [|split; [|reflexivity]].
+    + apply (view_quiet true (set_skipped s (peek (s_skipped s) + 1)) c); [exact R3|].
+      cbn. unfold sched_period. rewrite R1, R2. exact R8.
+    + unfold R. cbn [set_skipped s_params s_module s_period s_skipped peek]. rewrite Hst, Hen.
+      repeat split; auto; try lia; try discriminate.
+  - (* never started: the skipped counter becomes the epoch number, the next epoch is the first *)
+    specialize (R9 eq_refl). assert (Hc0 : c = 0) by exact R9. clear R9. rewrite Hc0 in *.
+    split; [|split; [|reflexivity]].
+    + apply (view_quiet true (set_skipped s e) 0); [exact R3|].
+      cbn. unfold sched_period. rewrite R1, R2. exact R8.
+    + unfold R. cbn [set_skipped s_params s_module s_period s_skipped peek]. rewrite Hst, Hen.
+      repeat split; auto; try lia; try discriminate.
+Qed.
+
+(* ---------------------------------------------------------------- one op *)
+
+Definition next_c (p : params) (o : op) (c : Z) : Z :=
+  match o with EpochEnd true _ => if p_enabled p then c + 1 else c | _ => c end.
+Definition next_e (o : op) (e : Z) : Z := match o with EpochEnd true _ => e + 1 | _ => e end.
+
+Lemma R_set_params E M s e c p' :
+  R E M s e c -> p_epp p' = E -> p_max p' = M ->
+  (p_enabled p' = true -> p_started p' = true) -> (p_started p' = false -> p_started (s_params s) = false) ->
+  R E M (set_params s p') e c.
+Proof.
+  intros [R1 [R2 [R3 [R4 [R5 [R6 [R7 [R8 R9]]]]]]]] A B C D. unfold R. cbn [set_params s_params s_module s_period s_skipped].
+  repeat split; auto.
+Qed.
+
+Lemma step_refines zp E M s e c o :
+  small E M -> R E M s e c -> hist_ok zp E M (s_params s) c e [o] ->
+  view_of (snd (step zp s o)) = snd (spec_step {| q_params := s_params s; q_c := c |} o) /\
+  R E M (fst (step zp s o)) (next_e o e) (next_c (s_params s) o c) /\
+  s_params (fst (step zp s o)) = next_params (s_params s) o.
+Proof.
+  intros Hs HR Hh. pose proof HR as [R1 [R2 [R3 [R4 [R5 [R6 [R7 [R8 R9]]]]]]]].
+  assert (Hq : peek (s_period s) = sched_period (s_params s) c) by (unfold sched_period; rewrite R1, R2; exact R8).
+  destruct o as [day e'|auth b|auth ed|amt]; cbn [step next_e next_c next_params].
+  - destruct day.
+    + cbn [hist_ok] in Hh. destruct Hh as [-> [He [Hen _]]].
+      destruct (p_enabled (s_params s)) eqn:En.
+      * destruct (Hen eq_refl) as [Hpo Hd]. apply enabled_day; auto.
+      * apply disabled_day; auto.
+    + unfold after_epoch_end. cbn [negb fst snd spec_step].
+      split; [apply view_quiet; auto|]. split; [exact HR|reflexivity].
+  - cbn [hist_ok next_params] in Hh. destruct auth.
+    + destruct Hh as [H1 [H2 _]]. cbn [fst snd spec_step].
+      assert (HR' : R E M (toggle s b) e c).
+      { apply R_set_params; auto.
+        - cbn. intros ->. apply orb_true_r.
+        - cbn. intro X. apply orb_false_iff in X. tauto. }
+      split; [|split; [exact HR'|reflexivity]].
+      destruct HR' as [Q1 [Q2 [Q3 [_ [_ [_ [_ [Q8 _]]]]]]]].
+      apply (view_quiet true (toggle s b) c); [exact Q3|]. unfold sched_period. rewrite Q1, Q2. exact Q8.
+    + cbn [fst snd spec_step]. split; [apply view_quiet; auto|]. split; [exact HR|reflexivity].
+  - cbn [hist_ok next_params] in Hh. destruct Hh as [H1 [H2 _]]. cbn [spec_step q_params q_c].
+    destruct (auth && valid (merge ed (s_params s))) eqn:Ok; cbn [fst snd].
+    + assert (HR' : R E M (set_params s (merge ed (s_params s))) e c).
+      { apply R_set_params; auto. }
+      split; [|split; [exact HR'|reflexivity]].
+      destruct HR' as [Q1 [Q2 [Q3 [_ [_ [_ [_ [Q8 _]]]]]]]].
+      apply (view_quiet true (set_params s (merge ed (s_params s))) c); [exact Q3|].
+      unfold sched_period. rewrite Q1, Q2. exact Q8.
+    + split; [apply view_quiet; auto|]. split; [exact HR|reflexivity].
+  - cbn [hist_ok] in Hh. contradiction.
+Qed.
+
+(* ---------------------------------------------------------------- histories *)
+
+Lemma run_cons zp s o r :
+  run zp s (o :: r) = (fst (run zp (fst (step zp s o)) r), snd (step zp s o) :: snd (run zp (fst (step zp s o)) r)).
+Proof. cbn [run]. destruct (step zp s o) as [s1 x]. cbn [fst snd]. destruct (run zp s1 r). reflexivity. Qed.
+
+Lemma spec_run_cons q o r :
+  spec_run q (o :: r) =
+  (fst (spec_run (fst (spec_step q o)) r), snd (spec_step q o) :: snd (spec_run (fst (spec_step q o)) r)).
+Proof. cbn [spec_run]. destruct (spec_step q o) as [q1 x]. cbn [fst snd]. destruct (spec_run q1 r). reflexivity. Qed.
+
+Lemma hist_ok_head zp E M p c e o r : hist_ok zp E M p c e (o :: r) -> hist_ok zp E M p c e [o].
+Proof.
+  destruct o as [[|] e'|auth b|auth ed|amt]; cbn [hist_ok]; intro H; try tauto.
+Qed.
+
+Lemma hist_ok_tail zp E M p c e o r :
+  hist_ok zp E M p c e (o :: r) -> hist_ok zp E M (next_params p o) (next_c p o c) (next_e o e) r.
+Proof.
+  destruct o as [[|] e'|auth b|auth ed|amt]; cbn [hist_ok next_params next_c next_e]; intro H; try tauto.
+Qed.
+
+Lemma spec_step_state q o :
+  fst (spec_step q o) = {| q_params := next_params (q_params q) o; q_c := next_c (q_params q) o (q_c q) |}.
+Proof.
+  destruct q as [p c]. destruct o as [[|] e'|[|] b|auth ed|amt]; cbn [spec_step next_params next_c q_params q_c fst]; try reflexivity.
+  - destruct (p_enabled p); reflexivity.
+  - destruct (auth && valid (merge ed p)); reflexivity.
+Qed.
+
+(** MAIN: from a consistent state, over every admissible history, what the code does is what the
+    closed-form schedule prescribes, op by op; and the coupling holds again at the end *)
+Theorem refines_schedule : forall zp E M ops s e c,
+  small E M -> R E M s e c -> hist_ok zp E M (s_params s) c e ops ->
+  map view_of (snd (run zp s ops)) = snd (spec_run {| q_params := s_params s; q_c := c |} ops) /\
+  exists e' c', R E M (fst (run zp s ops)) e' c' /\
+                fst (spec_run {| q_params := s_params s; q_c := c |} ops) =
+                {| q_params := s_params (fst (run zp s ops)); q_c := c' |}.
+Proof.
+  intros zp E M ops. induction ops as [|o r IH]; intros s e c Hs HR Hh.
+  - cbn. split; [reflexivity|]. exists e, c. auto.
+  - rewrite run_cons, spec_run_cons. cbn [fst snd map].
+    destruct (step_refines zp E M s e c o Hs HR (hist_ok_head _ _ _ _ _ _ _ _ Hh)) as [V [HR' Hp]].
+    pose proof (hist_ok_tail _ _ _ _ _ _ _ _ Hh) as Ht. rewrite <- Hp in Ht.
+    rewrite spec_step_state. cbn [q_params q_c]. rewrite <- Hp.
+    destruct (IH _ _ _ Hs HR' Ht) as [Vr Er].
+    split; [rewrite V, Vr; reflexivity|exact Er].
+Qed.
+
+(* ---------------------------------------------------------------- the position is the count of enabled day epochs *)
+
+Fixpoint enabled_days (p : params) (ops : list op) : Z :=
+  match ops with
+  | [] => 0
+  | o :: r => (next_c p o 0) + enabled_days (next_params p o) r
+  end.
+
+Lemma spec_position : forall ops p c,
+  q_c (fst (spec_run {| q_params := p; q_c := c |} ops)) = c + enabled_days p ops.
+Proof.
+  induction ops as [|o r IH]; intros p c; [cbn; lia|].
+  rewrite spec_run_cons. cbn [fst]. rewrite spec_step_state. cbn [q_params q_c enabled_days].
+  rewrite IH. destruct o as [[|] e'|auth b|auth ed|amt]; cbn [next_c]; try lia. destruct (p_enabled p); lia.
+Qed.
+
+(* ---------------------------------------------------------------- everything minted is distributed *)
+
+(** one day-epoch end, any state with valid proportions (also with stray coins in the module account, also an
+    inconsistent one): the three recipients receive exactly what was minted plus what lay in the module account;
+    staking and community are the floors of their proportions; the module account ends empty *)
+Lemma all_distributed zp s e :
+  dist_ok (s_params s) -> 0 <= s_module s ->
+  let x := snd (after_epoch_end zp s true e) in
+  0 <= o_minted x /\
+  (0 < o_minted x ->
+     o_staking x + o_community x + o_strategic x = o_minted x + s_module s /\ o_module x = 0 /\
+     o_staking x = o_minted x * p_staking (s_params s) / PREC /\
+     o_community x = o_minted x * p_community (s_params s) / PREC) /\
+  (o_minted x = 0 -> o_staking x = 0 /\ o_community x = 0 /\ o_strategic x = 0 /\ o_module x = s_module s).
+Proof.
+  intros Hd Hm. unfold after_epoch_end. cbn [negb].
+  destruct (p_enabled (s_params s)); cbn [negb].
+  - destruct (0 <? provision (s_params s) (peek (s_period s))) eqn:Pv; cbn [negb].
+    + apply Z.ltb_lt in Pv.
+      destruct (0 <? truncate_int (provision (s_params s) (peek (s_period s)))) eqn:Pa; cbn [negb].
+      * apply Z.ltb_lt in Pa.
+        rewrite (allocate_ok _ _ _ Hd Hm ltac:(lia)). cbn.
+        destruct Hd as [D1 [D2 [D3 D4]]].
+        split; [lia|]. split; [|intro; lia]. intros _.
+        rewrite !share_eq by lia. repeat split; lia.
+      * cbn. split; [lia|]. split; [intro; lia|]. auto.
+    + cbn. split; [lia|]. split; [intro; lia|]. auto.
+  - destruct (p_started (s_params s)); cbn; (split; [lia|]; split; [intro; lia|]; auto).
+Qed.
+
+(* ---------------------------------------------------------------- disabled epochs *)
+
+Lemma disabled_epochs_mint_nothing zp s e :
+  p_enabled (s_params s) = false -> 0 <= peek (s_skipped s) < two64 - 1 ->
+  let s' := fst (after_epoch_end zp s true e) in
+  let x := snd (after_epoch_end zp s true e) in
+  o_minted x = 0 /\ o_staking x = 0 /\ o_community x = 0 /\ o_strategic x = 0 /\ o_panic x = false /\
+  s_module s' = s_module s /\ s_period s' = s_period s /\ s_params s' = s_params s /\
+  (p_started (s_params s) = true -> n_of s' (e + 1) = n_of s e) /\
+  (p_started (s_params s) = false -> n_of s' (e + 1) = 1).
+Proof.
+  intros Hen Hk. unfold after_epoch_end, n_of. cbn [negb]. rewrite Hen. cbn [negb fst snd].
+  destruct (p_started (s_params s)); cbn [negb set_skipped quiet o_minted o_staking o_community o_strategic o_panic
+                                            s_module s_period s_params s_skipped peek].
+  - rewrite wrap_small by lia. repeat split; auto; try discriminate. intros _. lia.
+  - repeat split; auto; try discriminate. intros _. lia.
+Qed.
+
+(* ---------------------------------------------------------------- fresh start *)
+
+(** a module that never started (whatever its skipped counter says) is consistent after the first day epoch that
+    ends while it is still disabled — which is how a chain starts, and how a chain that adds the module by an
+    upgrade repairs a stale counter *)
+Lemma fresh_start_consistent zp s e :
+  p_started (s_params s) = false -> p_enabled (s_params s) = false -> peek (s_period s) = 0 ->
+  0 <= p_max (s_params s) -> 0 < p_epp (s_params s) ->
+  Consistent (fst (after_epoch_end zp s true e)) (e + 1).
+Proof.
+  intros Hst Hen Hp HM HE. unfold after_epoch_end. cbn [negb]. rewrite Hen, Hst. cbn [negb fst].
+  unfold Consistent, n_of. cbn [set_skipped s_params s_skipped s_period peek].
+  rewrite Hen, Hst. replace (e + 1 - e) with 1 by lia. replace (1 - 1) with 0 by lia.
+  rewrite Z.div_0_l by lia. rewrite Z.min_l by lia.
+  repeat split; auto; try discriminate; lia.
+Qed.
+
+(** the genesis of a new chain (default genesis: period 0, skipped 0, never started) is consistent at day epoch 1 *)
+Lemma genesis_consistent s :
+  p_started (s_params s) = false -> p_enabled (s_params s) = false ->
+  peek (s_period s) = 0 -> peek (s_skipped s) = 0 -> 0 <= p_max (s_params s) -> 0 < p_epp (s_params s) ->
+  Consistent s 1.
+Proof.
+  intros Hst Hen Hp Hk HM HE. unfold Consistent, n_of. rewrite Hk, Hp, Hen.
+  replace (1 - 0 - 1) with 0 by lia. rewrite Z.div_0_l by lia. rewrite Z.min_l by lia.
+  repeat split; auto; try discriminate; lia.
+Qed.
+
+(* ---------------------------------------------------------------- inconsistent genesis *)
+
+(** the raw step of an enabled epoch at period [per] < MaxPeriod with a provision of at least one unibi *)
+Lemma enabled_step_raw zp s e :
+  let p := s_params s in let per := peek (s_period s) in let k := peek (s_skipped s) in
+  p_enabled p = true -> dist_ok p -> s_module s = 0 ->
+  0 < p_epp p < two62 -> 0 <= per < p_max p -> 0 <= p_epp p * per < two62 -> 0 <= e < two62 -> 0 <= k < two62 ->
+  PREC <= poly_provision p per ->
+  o_minted (snd (after_epoch_end zp s true e)) = truncate_int (poly_provision p per) /\
+  peek (s_period (fst (after_epoch_end zp s true e))) =
+    (if p_epp p <=? e - p_epp p * per - k then per + 1 else per) /\
+  s_skipped (fst (after_epoch_end zp s true e)) = s_skipped s.
+Proof.
+  intros p per k Hen Hd Hm HE Hper Hmul He Hk Hprov. destruct two62_lt as [T1 [T2 T3]].
+  unfold after_epoch_end. cbn [negb]. fold p per k. rewrite Hen. cbn [negb].
+  rewrite provision_below by (auto; lia).
+  pose proof PREC_pos as P.
+  assert (0 <? poly_provision p per = true) as -> by (apply Z.ltb_lt; lia). cbn [negb].
+  pose proof (truncate_ge1 _ Hprov) as Hamt.
+  assert (0 <? truncate_int (poly_provision p per) = true) as -> by (apply Z.ltb_lt; lia). cbn [negb].
+  rewrite Hm, (allocate_ok p 0 _ Hd ltac:(lia) ltac:(lia)). cbn [andb fst snd o_minted s_period s_skipped].
+  rewrite rollover_small by lia.
+  split; [reflexivity|]. split; [|reflexivity].
+  destruct (p_epp p <=? e - p_epp p * per - k); [|reflexivity].
+  cbn [peek]. apply wrap_small. rewrite <- T2, <- T1. lia.
+Qed.
+
+(** behind the schedule (period < floor((n-1)/EPP)): every enabled epoch mints the amount of the lagging
+    period and advances the period by one; the lag never grows (it shrinks except when n crosses a multiple of EPP) *)
+Lemma behind_catches_up zp s e :
+  let p := s_params s in let per := peek (s_period s) in let n := n_of s e in
+  p_enabled p = true -> dist_ok p -> s_module s = 0 ->
+  0 < p_epp p < two62 -> 0 <= per < p_max p -> 0 <= p_epp p * per < two62 -> 0 <= e < two62 ->
+  0 <= peek (s_skipped s) < two62 -> PREC <= poly_provision p per ->
+  per < (n - 1) / p_epp p ->
+  let s' := fst (after_epoch_end zp s true e) in
+  o_minted (snd (after_epoch_end zp s true e)) = truncate_int (poly_provision p per) /\
+  peek (s_period s') = per + 1 /\
+  (n_of s' (e + 1) - 1) / p_epp p - peek (s_period s') <= (n - 1) / p_epp p - per.
+Proof.
+  intros p per n Hen Hd Hm HE Hper Hmul He Hk Hprov Hbehind.
+  destruct (enabled_step_raw zp s e Hen Hd Hm HE Hper Hmul He Hk Hprov) as [A [B C]].
+  fold p per in A, B. unfold n, n_of in *.
+  set (E := p_epp p) in *. set (k := peek (s_skipped s)) in *.
+  assert (Roll : E <=? e - E * per - k = true).
+  { apply Z.leb_le.
+    assert (E * (per + 1) <= E * ((e - k - 1) / E)) by nia.
+    pose proof (Z.mul_div_le (e - k - 1) E ltac:(lia)). lia. }
+  rewrite Roll in B. split; [exact A|]. split; [exact B|].
+  rewrite B. unfold n_of. rewrite C. fold k.
+  replace (e + 1 - k - 1) with ((e - k - 1) + 1) by lia.
+  assert (0 <= e - k - 1).
+  { destruct (Z_lt_le_dec (e - k - 1) 0) as [N|N]; [|exact N].
+    pose proof (Z.div_lt_upper_bound (e - k - 1) E 0 ltac:(lia) ltac:(lia)). lia. }
+  destruct (next_period E (e - k - 1) ltac:(lia) ltac:(lia)) as [[_ X]|[_ X]]; rewrite X; lia.
+Qed.
+
+(** ahead of the schedule (period > floor((n-1)/EPP)): the period waits *)
+Lemma ahead_waits zp s e :
+  let p := s_params s in let per := peek (s_period s) in let n := n_of s e in
+  p_enabled p = true -> dist_ok p -> s_module s = 0 ->
+  0 < p_epp p < two62 -> 0 <= per < p_max p -> 0 <= p_epp p * per < two62 -> 0 <= e < two62 ->
+  0 <= peek (s_skipped s) < two62 -> PREC <= poly_provision p per ->
+  (n - 1) / p_epp p < per -> 1 <= n ->
+  o_minted (snd (after_epoch_end zp s true e)) = truncate_int (poly_provision p per) /\
+  peek (s_period (fst (after_epoch_end zp s true e))) = per.
+Proof.
+  intros p per n Hen Hd Hm HE Hper Hmul He Hk Hprov Hahead Hn.
+  destruct (enabled_step_raw zp s e Hen Hd Hm HE Hper Hmul He Hk Hprov) as [A [B C]].
+  fold p per in A, B. unfold n, n_of in *.
+  set (E := p_epp p) in *. set (k := peek (s_skipped s)) in *.
+  assert (Roll : E <=? e - E * per - k = false).
+  { apply Z.leb_gt.
+    assert (e - k - 1 < E * per).
+    { apply Z.div_lt_upper_bound in Hahead; lia. }
+    lia. }
+  rewrite Roll in B. auto.
+Qed.
+
+(* concrete witnesses *)
+
+Definition lin_params (en st : bool) : params :=
+  {| p_enabled := en; p_started := st; p_factors := [-10 * PREC; 1000 * PREC];
+     p_staking := 281250000000000000; p_community := 354825000000000000; p_strategic := 363925000000000000;
+     p_epp := 2; p_ppy := 12; p_max := 5 |}.
+
+(** a running chain imported with zeroed counters while the day epoch stands at 7 *)
+Definition bad_genesis : st :=
+  {| s_params := lin_params true true; s_period := Some 0; s_skipped := Some 0; s_module := 0 |}.
+
+Lemma closed_form_refuted_for_inconsistent_genesis :
+  exists s e, dist_ok (s_params s) /\ poly_unit (s_params s) /\ s_module s = 0 /\
+              p_started (s_params s) = true /\ ~ Consistent s e /\
+              o_minted (snd (after_epoch_end true s true e)) <> sched_mint (s_params s) (n_of s e - 1).
+Proof.
+  exists bad_genesis, 7. split; [vm_compute; repeat split; discriminate|].
+  split.
+  { intros per Hper. change (p_max (s_params bad_genesis)) with 5 in Hper.
+    assert (per = 0 \/ per = 1 \/ per = 2 \/ per = 3 \/ per = 4) as [->|[->|[->|[->| ->]]]] by lia;
+      vm_compute; discriminate. }
+  split; [reflexivity|]. split; [reflexivity|]. split.
+  - intros [_ [_ [C _]]]. vm_compute in C. discriminate.
+  - vm_compute. discriminate.
+Qed.
+
+(** never started, but switched on before any day epoch ended while the epoch counter is already at 7 *)
+Lemma first_enable_without_a_disabled_epoch_refuted :
+  exists s e, p_started (s_params s) = false /\ p_enabled (s_params s) = false /\ peek (s_period s) = 0 /\
+    let s1 := fst (step true s (Toggle true true)) in
+    ~ Consistent s1 e /\
+    (* the 4 epochs 7..10 are the first four enabled ones: the schedule keeps period 0 for two of them and period 1
+       for the next two; the code rolls over after every one of them *)
+    map o_period (snd (run true s1 [EpochEnd true 7; EpochEnd true 8; EpochEnd true 9; EpochEnd true 10])) = [1; 2; 3; 4].
+Proof.
+  exists {| s_params := lin_params false false; s_period := Some 0; s_skipped := Some 0; s_module := 0 |}, 7.
+  split; [reflexivity|]. split; [reflexivity|]. split; [reflexivity|]. split.
+  - intros [_ [_ [C _]]]. vm_compute in C. discriminate.
+  - vm_compute. reflexivity.
+Qed.
+
+(** FINDING: polynomial positive below MaxPeriod, state consistent, proportions valid — but the provision is
+    below one unibi: on a tree where the probe reports the panic ([zp] = true) the epoch hook panics
+    (in BeginBlock: the chain halts) *)
+Definition tiny_state : st :=
+  {| s_params := {| p_enabled := true; p_started := true; p_factors := [400000000000];
+                    p_staking := 281250000000000000; p_community := 354825000000000000; p_strategic := 363925000000000000;
+                    p_epp := 30; p_ppy := 12; p_max := 2 |};
+     s_period := Some 0; s_skipped := Some 0; s_module := 0 |}.
+
+Lemma sub_unit_provision_panics :
+  exists s e, Consistent s e /\ dist_ok (s_params s) /\ poly_pos (s_params s) /\ s_module s = 0 /\
+              o_panic (snd (after_epoch_end true s true e)) = true.
+Proof.
+  exists tiny_state, 1. split; [vm_compute; repeat split; try discriminate; auto|].
+  split; [vm_compute; repeat split; discriminate|]. split.
+  { intros per Hper. change (p_max (s_params tiny_state)) with 2 in Hper.
+    assert (per = 0 \/ per = 1) as [->| ->] by lia; vm_compute; reflexivity. }
+  split; reflexivity.
+Qed.
+
+(* ---------------------------------------------------------------- the checker's precondition *)
+
+Lemma dist_okb_sound p : dist_okb p = true -> dist_ok p.
+Proof.
+  unfold dist_okb, dist_ok. intro H. repeat (apply andb_true_iff in H; destruct H as [H ?]).
+  repeat match goal with X : (_ <=? _) = true |- _ => apply Z.leb_le in X end.
+  apply Z.eqb_eq in H0. auto.
+Qed.
+
+Lemma prov_okb_sound zp p c : prov_okb zp p c = true -> prov_ok zp p c.
+Proof.
+  unfold prov_okb, prov_ok. intros H L. apply Z.ltb_lt in L. rewrite L in H. apply Z.leb_le in H. exact H.
+Qed.
+
+Lemma hist_okb_sound zp E M : forall ops p c e, hist_okb zp E M p c e ops = true -> hist_ok zp E M p c e ops.
+Proof.
+  induction ops as [|o r IH]; intros p c e H; [exact I|].
+  destruct o as [[|] e'|auth b|auth ed|amt]; cbn [hist_okb hist_ok] in *.
+  - repeat (apply andb_true_iff in H; destruct H as [H ?]).
+    apply Z.eqb_eq in H. apply Z.leb_le in H3. apply Z.ltb_lt in H2.
+    split; [exact H|]. split; [lia|]. split; [|apply IH; assumption].
+    intro En. rewrite En in H1. cbn in H1. apply andb_true_iff in H1. destruct H1 as [A B].
+    split; [apply prov_okb_sound; exact A|apply dist_okb_sound; exact B].
+  - repeat (apply andb_true_iff in H; destruct H as [H ?]). apply Z.eqb_eq in H. apply Z.eqb_eq in H1. auto.
+  - repeat (apply andb_true_iff in H; destruct H as [H ?]). apply Z.eqb_eq in H. apply Z.eqb_eq in H1. auto.
+  - repeat (apply andb_true_iff in H; destruct H as [H ?]). apply Z.eqb_eq in H. apply Z.eqb_eq in H1. auto.
+  - discriminate.
+Qed.
+
+Lemma consistentb_sound s e : consistentb s e = true -> Consistent s e.
+Proof.
+  unfold consistentb, Consistent. intro H. repeat (apply andb_true_iff in H; destruct H as [H ?]).
+  apply Z.leb_le in H2. apply Z.eqb_eq in H1.
+  split; [intro X; rewrite X in H; exact H|]. split; [exact H2|]. split; [exact H1|].
+  intro X. rewrite X in H0. cbn in H0. apply Z.eqb_eq in H0. exact H0.
+Qed.
+
+(** wherever the check evaluates the schedule predicate ([pre] holds), the case is inside the hypotheses of
+    [refines_schedule]; hence the MODEL's trace of that case satisfies the predicate *)
+Lemma pre_sound c :
+  pre c = true ->
+  P_trace (start_q c) (combine (map fst (c_tr c)) (snd (run (c_zp c) (c_init c) (map fst (c_tr c))))).
+Proof.
+  unfold pre, start_q. destruct (first_day (map fst (c_tr c))) as [e|] eqn:Fd; [|discriminate].
+  intro H. repeat (apply andb_true_iff in H; destruct H as [H ?]).
+  apply consistentb_sound in H. apply Z.eqb_eq in H3. apply Z.leb_le in H1. apply hist_okb_sound in H0.
+  assert (Hs : small (p_epp (s_params (c_init c))) (p_max (s_params (c_init c)))).
+  { unfold smallb in H2. repeat (apply andb_true_iff in H2; destruct H2 as [H2 ?]).
+    apply Z.ltb_lt in H2. apply Z.leb_le in H5. apply Z.ltb_lt in H4. repeat split; assumption. }
+  pose proof (Consistent_R _ _ H H3 H1) as HR.
+  destruct (refines_schedule _ _ _ _ _ _ _ Hs HR H0) as [V _].
+  unfold P_trace.
+  set (ops := map fst (c_tr c)) in *. set (outs := snd (run (c_zp c) (c_init c) ops)) in *.
+  assert (L : length outs = length ops).
+  { unfold outs. clear. generalize (c_init c). induction ops as [|o r IH]; intro s; [reflexivity|].
+    rewrite run_cons. cbn [snd length]. rewrite IH. reflexivity. }
+  assert (M1 : map fst (combine ops outs) = ops).
+  { clear - L. revert outs L. induction ops as [|o r IH]; intros [|x xs] L; cbn in *; try discriminate; [reflexivity|].
+    f_equal. apply IH. lia. }
+  assert (M2 : map (fun x => view_of (snd x)) (combine ops outs) = map view_of outs).
+  { clear - L. revert outs L. induction ops as [|o r IH]; intros [|x xs] L; cbn in *; try discriminate; [reflexivity|].
+    f_equal. apply IH. lia. }
+  rewrite M1, M2. exact V.
+Qed.
+
+(* ---------------------------------------------------------------- non-vacuity *)
+
+(** the default parameters of the module, as printed by the driver from the linked package *)
+Definition default_params (en st : bool) : params :=
+  {| p_enabled := en; p_started := st;
+     p_factors := [-147085524000000; 74291982762000000; -18867415611180000000; 3128641926954698000000;
+                   -334834740631598223000000; 17827464906540066004000000];
+     p_staking := 281250000000000000; p_community := 354825000000000000; p_strategic := 363925000000000000;
+     p_epp := 30; p_ppy := 12; p_max := 96 |}.
+
+Definition genesis_state : st :=
+  {| s_params := default_params false false; s_period := Some 0; s_skipped := Some 0; s_module := 0 |}.
+
+Example genesis_state_consistent : Consistent genesis_state 1 /\ small 30 96 /\ dist_ok (s_params genesis_state).
+Proof.
+  split; [apply genesis_consistent; vm_compute; try reflexivity; discriminate|].
+  split; vm_compute; repeat split; discriminate.
+Qed.
+
+(** two disabled days, switch on, 31 enabled days (crossing the first period boundary), off for a day, on again *)
+Definition ex_ops : list op :=
+  [EpochEnd true 1; EpochEnd true 2; Toggle true true] ++
+  map (fun i => EpochEnd true (Z.of_nat i)) (seq 3 31) ++
+  [Toggle true false; EpochEnd true 34; Toggle true true; EpochEnd true 35; EpochEnd false 9].
+
+Example ex_hist_ok : hist_ok true 30 96 (s_params genesis_state) 0 1 ex_ops.
+Proof. apply hist_okb_sound. vm_compute. reflexivity. Qed.
+
+Example ex_periods :
+  map o_period (snd (run true genesis_state ex_ops)) =
+  [0; 0; 0] ++ repeat 0 29 ++ [1; 1] ++ [1; 1; 1; 1; 1].
+Proof. vm_compute. reflexivity. Qed.
+
+Example ex_mints :
+  (nth 3 (map o_minted (snd (run true genesis_state ex_ops))) 0,
+   nth 33 (map o_minted (snd (run true genesis_state ex_ops))) 0,
+   nth 35 (map o_minted (snd (run true genesis_state ex_ops))) 0) =
+  (594248830218, 583190709605, 0).
+Proof. vm_compute. reflexivity. Qed.
+
+Example behind_nonvacuous :
+  let s := bad_genesis in
+  peek (s_period s) < (n_of s 7 - 1) / p_epp (s_params s) /\ PREC <= poly_provision (s_params s) (peek (s_period s)).
+Proof. vm_compute. split; [reflexivity|discriminate]. Qed.
